@@ -165,3 +165,44 @@ example :
       [.traverse, .search false .equals ['.'] ['x']]
       (.real (.map none [(.str ['x'], .scalar none (.str ['x']))], Ctx.root))).1).map (·.2.addr)
     = [[.key (.str ['x'])], [.key (.str ['x'])]] := by decide +kernel
+
+/-! ## What the per-kind children are (sanity of the table in `Spec/Select.lean`) -/
+
+/-- `[n]` / a bare integer key on a list is Python indexing: the element at `n` (from the end when
+negative) when `-len ≤ n < len`, nothing otherwise — never an exception. -/
+theorem elemAt_spec (items : List Node) (i : Int) (c : Ctx) :
+    elemAt items i c =
+      if h : inRange items.length i = true then
+        match items[normIdx items.length i]? with
+        | some x => Gen.one (x, c.child (.idx (normIdx items.length i)) (.idx i) (idxSection i))
+        | none => Gen.nil
+      else Gen.nil := by
+  unfold elemAt
+  by_cases h : inRange items.length i = true
+  · obtain ⟨x, hx⟩ := pyGetItem_inRange items i h
+    have := pyGetItem_spec items i x h hx
+    simp [h, hx, this]
+  · simp [h]
+
+/-- A non-integer key on a list passes through to every element, in order. -/
+theorem keyStep_passThrough (k : Str) (a : Option Str) (items : List Node) (c : Ctx) (hk : pyInt? k = none) :
+    keyStep k true (.seq a items) c
+      = Gen.bindList (fun x => keyStep k true x.1 x.2) (seqKidsFrom c items 0) := by
+  have : ∀ (l : List Node) (i : Nat), keyStep.passThrough k true c l i
+      = Gen.bindList (fun x => keyStep k true x.1 x.2) (seqKidsFrom c l i) := by
+    intro l
+    induction l with
+    | nil => intro i; rfl
+    | cons n ns ih => intro i; simp [keyStep.passThrough, seqKidsFrom, ih]
+  simp [keyStep, hk, this]
+
+/-- The positions a list slice selects are those of Python's `data[lo:hi]`: consecutive, starting at the
+clamped `lo`, ending before the clamped `hi`. -/
+theorem sliceIndices_spec (len : Nat) (lo hi : Int) :
+    sliceIndices len lo hi = (List.range (sliceStart len hi - sliceStart len lo)).map (· + sliceStart len lo)
+    ∧ sliceStart len lo ≤ len ∧ sliceStart len hi ≤ len :=
+  ⟨rfl, sliceStart_le len lo, sliceStart_le len hi⟩
+
+example : sliceIndices 3 0 (-1) = [0, 1] := by decide +kernel
+example : sliceIndices 2 1 9 = [1] := by decide +kernel
+example : sliceIndices 4 (-3) (-1) = [1, 2] := by decide +kernel
